@@ -106,6 +106,11 @@ fn load_in_child(path: &str, declared: usize) -> Outcome {
     Ok(core) => {
       // touch the first, a middle and the last declared ROM byte
       let rom = &core.memory.rom;
+      // "for accepted files the ROM size is that given by the header tables": also when
+      // the file holds more than it declares
+      if rom.len() != declared {
+        return 12;
+      }
       let n = rom.len().min(declared.max(1));
       let x = std::hint::black_box(rom[0]) as u32 + std::hint::black_box(rom[n / 2]) as u32 + std::hint::black_box(rom[n - 1]) as u32;
       std::hint::black_box(x);
@@ -276,6 +281,9 @@ pub fn run(ctx: &mut Ctx) {
         (declared, "exact"),
         (declared + 1, "larger"),
         (declared + 4096, "larger"),
+        (declared + 0x4000, "larger"),
+        (declared + 0x8000 + 77, "larger"),
+        (declared * 2, "larger"),
       ];
       for &(len, class) in lengths.iter() {
         for corrupt in [false, true].iter() {
@@ -321,6 +329,9 @@ pub fn run(ctx: &mut Ctx) {
               if !must_reject {
                 ctx.violation("C19:rejected-a-good-file", &format!("{}: rejected ({:?})", describe, out));
               }
+            }
+            Outcome::Other(12) => {
+              ctx.violation(&format!("C19:rom-size:mapped-size-differs-from-declared:{}", class), &format!("{}: the file is accepted but the ROM the emulator maps does not have the declared size", describe));
             }
             Outcome::Other(c) => {
               ctx.violation("C19:unexpected-exit", &format!("{}: child exit code {}", describe, c));
